@@ -38,7 +38,7 @@ HEAVY = {"examples/pi.hms", "examples/fibonacci.hms", "examples/e.hms", "tests/s
 
 # (id, program): witnesses of the fuzzer findings; every seed in CORPUS_SEEDS and 1..3 passes
 CORPUS = [
-    ("R8", "fn main() { println(10 - 2 ** 2, 7 / 2 * 2, 9 % 4 * 3, 2 + 3 * 4 - 1); let a = 10; let b = 3; println(a - b ** 2, a / b * b, a - (b + 1), a + b * 2); }"),
+    ("R8", "fn main() { let p = 10 - 2 ** 2; let q = 7 / 2 * 2; let r = 9 % 4 * 3; let s = 2 + 3 * 4 - 1; println(p, q, r, s); let a = 10; let b = 3; let t = a - b ** 2; let u = a / b * b; let v = a - (b + 1); let w = 1.5 - 2.25 + 3.0; println(t, u, v, w); }"),
     ("R9", "fn g() { return; } fn main() { g(); let i = 0; while i < 4 { i += 1; match i { 2 => { continue; }, _ => { if i == 3 { break; } } }; println(i); } println(\"end\", i); }"),
     ("R9", "import { trigger minute } from triggers;\nevent fn cb(_e: int) { println(\"cb\"); }\nfn main() { trigger cb on minute(5); for k in 0..3 { match k { _ => { break; } }; } println(\"t\"); }"),
     ("R10", "fn main() { let x: ?int = none; let o = new { ? }; o.set(\"k\", 1); println(x, o); let n = null; if x == none { println(\"none\"); } }"),
@@ -46,7 +46,7 @@ CORPUS = [
     ("R14", "fn f(k: int) -> int { let i = 0; loop { i += 1; if i > k { return i; } continue; } } fn main() { type T = int; let t: T = 1; println(f(2), t); loop { let x = if true { break; } else { 1 }; println(x); } }"),
     ("R15", "$S = { x: int };\nfn ext(s: $S, k: int) -> int { s.x + k }\nfn main() { $S.x = 2; println(ext(1), $S.x); }"),
     ("R15", "import { trigger minute } from triggers;\n#[trigger on minute(5)]\nevent fn cb(_e: int) { println(\"cb\"); }\nfn main() { println(1 + 2); }"),
-    ("R17", "fn main() { println((0 - 3) * 2, (-3) * 2, 3 * 2, 0 * 5, 7 * 0); let a = -4; println(a * 3); }"),
+    ("R17", "fn main() { let p = (0 - 3) * 2; let q = (-3) * 2; let r = 3 * 2; let s = 0 * 5; let a = -4; let t = a * 3; println(p, q, r, s, t); }"),
     ("-", "fn main() { let i = 0; while i < 3 { i += 1; println(i * 2, i + 1, i - 1, i == 2, i != 2, i < 2, i >= 2); } println(1.5 + 2.25, 3f * 2f, 10.0 - 0.5, true, !false, (1 + 2) as float); }"),
     ("-", "let g = [1, 2]; let h = \"s\"; fn main() { for x in g { if x == 1 { continue; } println(x, h); } let r = if g.len() > 1 { \"many\" } else { \"few\" }; println(r); }"),
 ]
